@@ -87,6 +87,7 @@ func runSync(o syncOpt) *syncRes {
 	rd := make(chan error, 1)
 	go func() {
 		err := sendFn(p.S.Context(), p.S)
+		p.S.MarkReturned()
 		if err == nil || o.EOFOnSendError {
 			p.S.CloseSend()
 		} else {
@@ -96,6 +97,7 @@ func runSync(o syncOpt) *syncRes {
 	}()
 	go func() {
 		err := recvFn(p.R.Context(), p.R)
+		p.R.MarkReturned()
 		p.R.CloseSend()
 		if !o.Cfg.TeardownKeepsContexts {
 			p.S.Cancel()
